@@ -195,7 +195,7 @@ def run(prog: Program, ctx: Ctx) -> None:  # noqa: PLR0912,PLR0915
                        "annotation element access handled for AttributeError (not a subscript expression) and IndexError (fewer elements than items)" if ok else
                        f"`{unparse(n)}` is only protected against {sorted(got) or 'nothing'}: more documented items than annotation elements raise IndexError "
                        "out of the parser", where(f, n))
-    ctx.expect_min("R2", n_el, 8)
+    ctx.expect_min("R2", n_el, 4)
 
     # ------------------------------------------------------------------ R2c docstring.parent chains
     n_par = 0
